@@ -77,6 +77,9 @@ def route_kind(w, a, b):
     return 'ordinary'
 
 
+_SHORT: dict = {}
+
+
 def gen_mission(rng, w, kind=None):
     import pandas as pd
 
@@ -85,6 +88,22 @@ def gen_mission(rng, w, kind=None):
     codes = sorted(c for c in w if w[c]['tag'] != 'patch')
     feasible = rng.random() < 0.8          # mostly within the range of the sample aircraft
     best = None
+    if kind is None or rng.random() < 0.08:
+        # a hop too short for climb + descent (the builder may refuse it; whatever it
+        # returns must still be a consistent trajectory)
+        short = _SHORT.get(id(w))
+        if short is None:
+            short = [(a, b) for a in codes for b in codes if a != b and
+                     (geodesy.inverse(w[a]['lat'], w[a]['lon'], w[b]['lat'], w[b]['lon'])
+                      or (9e9,))[0] < 2.2e5]
+            _SHORT[id(w)] = short
+            _SHORT[('keep', id(w))] = w
+        if short and rng.random() < (0.08 if kind is None else 1.0):
+            a, b = rng.choice(short)
+            t0 = pd.Timestamp('2024-09-01T12:00:00Z')
+            return Mission(origin=a, destination=b, departure=t0,
+                           arrival=t0 + pd.Timedelta(hours=1), load_factor=rng.random(),
+                           aircraft_type='738'), 'short-hop'
     for _ in range(400):
         a, b = rng.sample(codes, 2)
         if kind is not None and route_kind(w, a, b) != kind:
@@ -258,5 +277,38 @@ def check_resampling(traj):
                 probs.append(('resampling between two points is not the linear interpolation of '
                               'the neighbours', {'field': f, 'between': [idx[j], idx[j] + 1],
                                                  'got': float(got[j]), 'expected': float(exp[j])}))
+                return probs
+    # a grid of the SAME length whose times are nearly, but not exactly, the own time points
+    # (time stamps after a ppm clock-rate correction, or after a float32 round trip)
+    for label, grid in (('clock-rate corrected', t * (1 - 4e-6)),
+                        ('float32 round trip', np.clip(t.astype(np.float32).astype(float),
+                                                       t[0], t[-1]))):
+        if np.array_equal(grid, t):
+            continue
+        near = traj.interpolate_time(grid.copy())
+        ft = np.asarray(near.flight_time, float)
+        if len(ft) != n or np.any(np.abs(ft - grid) > 1e-12 * (1 + np.abs(grid))):
+            j = int(np.argmax(np.abs(ft - grid))) if len(ft) == n else -1
+            probs.append(('resampled trajectory does not carry the requested time points',
+                          {'grid': label, 'at': j, 'got': float(ft[j]) if j >= 0 else None,
+                           'requested': float(grid[j]) if j >= 0 else None}))
+            return probs
+        for f in ('fuel_mass', 'ground_distance', 'altitude', 'aircraft_mass'):
+            src = np.asarray(getattr(traj, f), float)
+            got = np.asarray(getattr(near, f), float)
+            exp = np.interp(grid, t, src)
+            # at a duplicated own time stamp either side's value is acceptable: compare only
+            # where the neighbours of the requested time are distinct in time
+            lo = np.searchsorted(t, grid, side='right') - 1
+            hi = np.minimum(lo + 1, n - 1)
+            clear = (t[hi] > t[np.maximum(lo, 0)]) | (hi == lo)
+            bad = clear & (np.abs(got - exp) > 1e-9 * (1 + np.abs(exp)))
+            if np.any(bad):
+                j = int(np.flatnonzero(bad)[0])
+                probs.append(('resampling at times close to the own time points is not the '
+                              'linear interpolation at the REQUESTED times',
+                              {'grid': label, 'field': f, 'at': j, 'got': float(got[j]),
+                               'expected': float(exp[j]), 'requested_time': float(grid[j]),
+                               'own_time': float(t[j])}))
                 return probs
     return probs
